@@ -231,6 +231,31 @@ def id_allocation_rule(r, ctx):
             "an id can be allocated although the name is already mapped: the identifier of a name changes")
     ret = [describe_rvalue(b, rv) for i, j, p, rv, line in b.assigns() if p[0] == 0 and not p[1]]
     r.check(True, "id_for/analysed", where(b), "returns %s" % ret[:2])
+    # the persisted counter is a RocksDB merge key: the operator is registered as associative, so RocksDB also applies it to operands alone (a flush
+    # or compaction folds several increments into ONE operand holding their sum). The operator must therefore add up what the operands *contain*
+    mo = [x for x in rs.all_bodies() if x.defpath.endswith("keystore::rocks::incrementing_merge_operator")]
+    if len(mo) != 1:
+        raise AnchorMissing("keystore::rocks::incrementing_merge_operator")
+    mo = ctx.saw(mo[0])
+    outs = [c for c in mo.calls if c.name.startswith("serialize_u64")]
+    if len(outs) != 1:
+        raise AnchorMissing("incrementing_merge_operator: expected one serialisation of the result, found %d" % len(outs))
+    src = mo.sources(outs[0].args[0], stop_at_calls=False)
+    des = [s[1] for s in src if s[0] == "call" and s[1].name.startswith("deserialize_u64")]
+    from_existing = [c for c in des if any(s[0] == "arg" and s[1] == 2 for s in mo.sources(c.args[0], stop_at_calls=False))]
+    from_operands = [c for c in des if any(s[0] == "arg" and s[1] == 3 for s in mo.sources(c.args[0], stop_at_calls=False))]
+    if not from_operands and any(s[0] == "call" and s[1].name in ("sum", "fold", "reduce") for s in src) and any(s[0] == "arg" and s[1] == 3 for s in src):
+        # iterator form: operands.iter().map(|op| deserialize(op)).sum()
+        for cb in rs.closures_of(mo.defpath):
+            from_operands += [c for c in cb.calls if c.name.startswith("deserialize_u64") and any(s[0] == "arg" and s[1] == 2 for s in cb.sources(c.args[0], stop_at_calls=False))]
+    adds = any(s[0] == "bin" and s[1] in ("Add", "AddWithOverflow", "AddUnchecked") for s in src) or any(s[0] == "call" and s[1].name in ("wrapping_add", "checked_add", "saturating_add", "sum") for s in src)
+    r.check(bool(from_existing), "merge-operator/starts-from-the-stored-value", where(mo), "the result starts from the decoded existing value",
+            "the merged counter does not depend on the stored value: the counter restarts and ids already handed out are reused")
+    r.check(bool(from_operands) and adds, "merge-operator/adds-the-decoded-operands", outs[0].loc(), "every operand is decoded and added",
+            "the merged counter does not add the decoded contents of its operands (e.g. it counts them): after RocksDB has folded several increments into one operand "
+            "(flush on reopen) the counter falls behind, and ids that belong to existing items are handed to new names")
+    reg = [c for x in rs.all_bodies() for c in x.calls if c.name in ("set_merge_operator_associative", "set_merge_operator") and "::tests" not in x.defpath]
+    r.check(len(reg) >= 1, "merge-operator/registered", reg[0].loc() if reg else "-", "the operator is registered with the counter's column family (%s)" % sorted({c.name for c in reg}))
 
 
 def ty_of(body, operand):
@@ -309,3 +334,64 @@ def assign_roles_by_type(body, table):
     if roles:
         body.assign_roles(roles)
     return roles
+
+
+def take_and_restore_rule(r, crate, ctx, scope=lambda b: True):
+    """Decoders that take their state out at the head of the loop (`match mem::take(state) { .. }`) leave the default state behind: every exit that
+    asks for more input (`Ok(None)`) from a state other than the default one must put a state back first - otherwise the decoder restarts at the
+    beginning of a frame in the middle of one (the bytes consumed so far are forgotten, the rest is read as a new header)."""
+    from mirlib import describe_operand, describe_place, describe_rvalue
+    n = 0
+    for b in crate.all_bodies():
+        if "::tests" in b.defpath or not scope(b):
+            continue
+        takes = [c for c in b.calls if c.name in ("take", "replace") and (c.defpath or "").startswith("core::mem::") and c.args]
+        for tk in takes:
+            held = describe_operand(b, tk.args[0]).lstrip("&")
+            held = held[4:] if held.startswith("mut ") else held
+            sws = [si for si in b.switches_on(lambda p_, si: True) if si.get("kind") == "disc" and b.dominates(tk.block, si["block"])]
+            sws = [si for si in sws if tk.dest is not None and si.get("place") is not None and b.copy_root(si["place"]) == tk.dest[0]]
+            if not sws:
+                continue
+            si = sws[0]
+            ve = b.variant_edges(si["block"]) or {}
+            adt = si.get("adt") or ""
+            # the state left behind by the take: the type's Default (mem::take) - its variant is read from the Default impl when the crate has one
+            default = None
+            for d in crate.all_bodies():
+                if d.defpath.endswith("as core::default::Default>::default") and (d.defpath.startswith("<" + adt + "<") or d.defpath.startswith("<" + adt + " as")):
+                    vs = [rv[1].get("variant") for i, j, p_, rv, line in d.assigns() if rv[0] == "agg" and (rv[1].get("adt") or "") == adt]
+                    ks = [describe_rvalue(d, rv) for i, j, p_, rv, line in d.assigns() if p_[0] == 0 and not p_[1]]
+                    default = vs[0] if vs else (ks[0].split("::")[-1].replace("()", "") if ks else None)
+            if tk.name == "replace":
+                default = describe_operand(b, tk.args[1]).split("::")[-1].split("(")[0]
+            if default is None or default not in ve:
+                continue
+            ctx.saw(b)
+            assigns = {i for i, j, p_, rv, line in b.assigns() if describe_place(b, p_) == held and i != tk.block and not b.dominates(i, tk.block)}
+            nones = [(i, line) for i, j, p_, rv, line in b.assigns() if describe_rvalue(b, rv).startswith("Result::Ok(Option::None")]
+            fn = "%s::%s" % ((b.meta.get("self_adt") or "?").split("::")[-1], b.meta.get("name"))
+            for v, t in sorted(ve.items()):
+                if v in (default, "_") or t == si.get("otherwise"):
+                    continue
+                loops = b.reaches(t, {tk.block})
+                if loops:
+                    n += 1
+                    w = b.path_avoiding([t], {tk.block}, avoid=assigns)
+                    r.check(w is None, "%s/%s/next-iteration/state-stored" % (fn, v), b.loc(), "the %s arm stores the next state before it goes round the loop" % v,
+                            "the %s arm of %s can go round the loop without storing a state (path %s): the next iteration starts from %s in the middle of a frame" % (v, fn, w, default))
+                k = 0
+                for i, line in sorted(nones):
+                    if not (b.reachable_from([t]) & {i}) and t != i:
+                        continue
+                    # only exits of this arm: reached without going round the loop (through the take) again
+                    if b.path_avoiding([t], {i}, avoid={tk.block}) is None and t != i:
+                        continue
+                    k += 1
+                    n += 1
+                    p1 = b.path_avoiding([t], {i}, avoid=assigns | {tk.block}) if t != i else [t]
+                    p2 = b.path_avoiding([i], set(b.exits()), avoid=(assigns | {tk.block}) - {i}) if p1 is not None and i not in assigns else None
+                    r.check(p1 is None or p2 is None, "%s/%s/more-input#%d/state-put-back" % (fn, v, k), b.loc(line), "the %s state is stored again before the decoder asks for more input" % v,
+                            "%s answers Ok(None) from the state %s without storing a state: the state taken at the head of the loop was replaced by %s, so when the rest of the frame arrives it is "
+                            "decoded as the start of a new frame (every later message of the stream is lost or garbled)" % (fn, v, default))
+    return n
